@@ -3,7 +3,9 @@
 Specs: ActiveIndex.tla (index pieces of the indexer workers vs the snapshots of a searching reader;
 ReturnedOK, NoInverserPanic, QuiescentComplete) and ProxyFrac.tla (Active -> Sealing -> Sealed ->
 Suicided hand-over with appenders, readers, sealer, suicider; OnlyFourStates, ReaderNeverSeesFreed,
-AckedIsSealed, NoSpuriousEmpty, NoDeadlock).  Binding: (1) EVERY complete interleaving of
+AckedIsSealed, NoSpuriousEmpty, NoDeadlock), SealedLoad.tla (first requests of a sealed fraction that came back from
+.frac-cache: NoLoadWhileRead, LoadedOnce; bound by the stress driver's restart phase, 12 first requests per fraction
+released together, plain and under the race detector).  Binding: (1) EVERY complete interleaving of
 ActiveIndex (2 bulks x 1 reader round, thorough 2 rounds; no VIEW, so histories are not merged) is
 forced on a real store by parking indexer workers and the reader at the verif hook points; (2) the
 seal hand-over is forced at every lock-free hook point of the sealer with an atomic reader and an
@@ -30,6 +32,15 @@ def run(ctx):
         if r.violated:
             raise vlib.Infra("TLC: %s violated in %s" % (r.violated, mod))
         vlib.require_tlc_ok(r, mod)
+    # lazy load of a sealed fraction that came back from .frac-cache (bound by the stress driver's restart phase)
+    for cfg in ("SealedLoad.cfg", "SealedLoad_fast.cfg"):
+        r = vlib.run_tlc(ctx, "SealedLoad.tla", cfg, tags=("NOCASE",), timeout=600)
+        if r.violated:
+            raise vlib.Infra("TLC: %s violated in SealedLoad.tla (%s)" % (r.violated, cfg))
+        vlib.require_tlc_ok(r, "SealedLoad " + cfg)
+    r = vlib.run_tlc(ctx, "SealedLoad.tla", "SealedLoad_norecheck.cfg", tags=("NOCASE",), timeout=600, quiet=True)
+    if r.violated not in ("LoadedOnce", "NoLoadWhileRead"):
+        raise vlib.Infra("vacuity guard: SealedLoad_norecheck.cfg should violate LoadedOnce / NoLoadWhileRead, TLC says %s" % (r.violated or r.error))
     # an appender that keeps the writer it picked before a rotation never returns: the model must say so
     r = vlib.run_tlc(ctx, "FracAppend.tla", "FracAppend_stale.cfg", tags=("NOCASE",), timeout=600, quiet=True, keep_lines=True)
     if not any("EveryBulkReturns was violated" in ln for ln in r.lines):
